@@ -157,6 +157,25 @@ def compileVgm {α} (drv : DriverFn α) (g : Globals) (fill : Nat → UInt8) (cl
 def compileMds (g : Globals) (song : Song) (d : Mds.DataInfo) (vol : Option Nat) : Globals × Option (List Nat) :=
   (g, match Mds.convertSong song d vol with | .ok c => some c.seq | .error _ => none)
 
+/-- one compilation request of a process: a VGM export or an MDS export -/
+inductive Job (α : Type)
+  | vgm (inp : α) (tags : Vgm.Tags)
+  | mds (song : Song) (d : Mds.DataInfo) (vol : Option Nat)
+
+abbrev JobOut := Except Vgm.Err Bytes ⊕ Option (List Nat)
+
+def runJob {α} (drv : DriverFn α) (g : Globals) (fill : Nat → UInt8) (clk : Clock) : Job α → Globals × JobOut
+  | .vgm inp tags => let r := compileVgm drv g fill clk inp tags; (r.1, .inl r.2)
+  | .mds song d vol => let r := compileMds g song d vol; (r.1, .inr r.2)
+
+/-- a process compiling a list of songs one after the other: the globals are threaded through -/
+def runJobs {α} (drv : DriverFn α) (fill : Nat → UInt8) (clk : Clock) : Globals → List (Job α) → Globals × List JobOut
+  | g, [] => (g, [])
+  | g, j :: js =>
+    let r := runJob drv g fill clk j
+    let rs := runJobs drv fill clk r.1 js
+    (rs.1, r.2 :: rs.2)
+
 /-! ### (b) what a player leaves in the `Song` -/
 
 /-- `LOOP_BREAK` params are scratch space of the players: normal form with all of them 0 -/
